@@ -8,6 +8,7 @@ Decided structurally (see DESIGN.md §4 C14):
   D5 R-TERM   arrays handed to a NULL-sentinel consumer are NULL-terminated
   D6 R-WHO    every error record is built with the parser's line number
   D7 R-LOOP   loop classification, definite divergence / skippable equality exit
+  D9 R-BOUND  the text cursor OrcParser.p is advanced by a constant only over bytes known to be non-NUL
   D8 R-NULL   a parser-state field that a handler frees is overwritten before the handler returns
 """
 from facts import AnalysisBroken, access_path, strip_casts, unparse
@@ -196,6 +197,53 @@ def run(ctx):
     # ---- D7: loops -------------------------------------------------------
     lf = list(pfuncs) + [db.func("_strtoll", "orcutils"), db.func("strsplit", "orcutils")]
     loops.classify_and_judge(db, lf, rep, rule="D7-R-LOOP")
+
+    # ---- D9: the text cursor never steps over the terminating NUL -------------------------------
+    # OrcParser.p walks the caller's NUL-terminated text.  Advancing it by a constant k is safe only if the k bytes it
+    # steps over are known to be non-NUL at that point (finite evaluation of the guards over a byte alphabet).
+    from exprval import admitted, key_of
+    n9 = 0
+    for f in pfuncs:
+        fc9 = None
+        for st in f.walk():
+            k = None
+            tgt = None
+            if st.k == "UnaryOperator" and st.op == "++":
+                tgt, k = st.c[0], 1
+            elif st.k == "CompoundAssignOperator" and st.op == "+=" and strip_casts(st.c[1]).v is not None:
+                tgt, k = st.c[0], strip_casts(st.c[1]).v
+            if tgt is None:
+                continue
+            t = strip_casts(tgt)
+            if not (t.k == "MemberExpr" and t.name == "p" and (t.get("rec") or "").lstrip("_") == "OrcParser"):
+                continue
+            n9 += 1
+            fc9 = fc9 or Facts(f)
+            base = key_of(t)
+            keys = tuple("%s[%d]" % (base, j) for j in range(k))
+            conds9 = list(fc9.conds(st))
+            # whole conditions of the enclosing if statements (a disjunction is not a must-fact on the joined edge, but it
+            # still holds in the branch), provided the cursor is not written between the test and this statement
+            x, prev = st.parent, st
+            while x is not None:
+                if x.k == "IfStmt" and x.c[0] is not None and prev is not x.c[0]:
+                    branch = True if prev is x.c[1] else False
+                    body = x.c[1] if branch else (x.c[2] if len(x.c) > 2 else None)
+                    writes = [w for w in (body.walk() if body is not None else []) if w.line < st.line and w is not st and
+                              ((w.k == "UnaryOperator" and w.op in ("++", "--")) or (w.k in ("BinaryOperator", "CompoundAssignOperator") and w.op in ("=", "+=", "-="))) and
+                              key_of(w.c[0]) == base]
+                    if not writes:
+                        conds9.append((x.c[0], branch))
+                prev, x = x, x.parent
+            got, rel = admitted(conds9, keys, (0, 10, 13, 65))
+            bad = sorted(v for v in got if any(x == 0 for x in v))
+            rep.check(not bad, "D9-TEXT-CURSOR", where(f), "%s+=%d" % (base, k),
+                      "the %d byte(s) stepped over are known to be non-NUL" % k,
+                      "%s advances the text cursor by %d although byte(s) %s may be the terminating NUL (guards: %s): the parser then reads "
+                      "past the end of the caller's text" % (f.name, k, [i for i in range(k) if any(v[i] == 0 for v in bad)],
+                                                            [unparse(x[0]) for x in rel]), line=st.line)
+    if n9 < 1:
+        raise AnalysisBroken("no constant advance of OrcParser.p found in orcparse.c")
 
     # ---- D8: parser state never keeps a freed pointer ---------------------
     # (a freed parser/program field left in place is freed again by orc_parse_code / orc_program_free,
